@@ -79,6 +79,8 @@ FAMILIES = {
     "p_scopecycle": fam(Prog="ProgScopeCycle", Ctors=["cyclic", "limits"], Ops=["set"], MaxVars=2, MaxNodes=8, MaxObs=2, MaxActs=10,
                         MaxRounds=3, MaxH=16),
     "p_subs": fam(Prog="ProgSubs", Ops=["set"], MaxVars=1, MaxNodes=1, MaxObs=2, MaxSubs=3, MaxActs=10, MaxRounds=3),
+    # node-level on_update handlers (Incr::on_update): counters in the audit, deliveries as conformance
+    "onupd_s": fam(Ctors=["var", "map"], Fs1=["id", "const0"], Effs=["onupdate"], MaxNodes=2, MaxObs=2, MaxActs=8, MaxRounds=3),
     # crash points other than node functions: bind closure / cutoff function / expert observability callback
     "p_boom": fam(Prog="ProgBoom", Ops=["set"], Cutoffs=["boom"], RecipeKinds=["boom"], MaxVars=1, MaxNodes=7, MaxObs=2, MaxActs=11,
                   MaxRounds=4, MaxH=16),
@@ -161,7 +163,7 @@ PROPS = {
     "C09": dict(random=RND, families=plan("obs_s", "obsfx_s", "p_subs", sim="sim_engine")),
     "C10": dict(random=RND, families=plan("obs_s", "obsfx_s", "p_subs", sim="sim_engine")),
     # thorough additionally audits the snapshots of the repository's own 74 tests (stage_owntests)
-    "C11": dict(random=RND, families=plan("obs_s", "bind_s", "bindalt_s", "bindalt_s@release", sim="sim_engine"), stage_modules_thorough=["stage_owntests"]),
+    "C11": dict(random=RND, families=plan("obs_s", "bind_s", "bindalt_s", "bindalt_s@release", "onupd_s", sim="sim_engine"), stage_modules_thorough=["stage_owntests"]),
     "C12": dict(random=RND, families=plan("own_s", "ownbind_s", "obsfx_s", "eff_s", sim="sim_engine")),
     "C13": dict(families=plan("panic_s", "p_panic", "p_boom", "p_xarm"), profiles=["debug", "release"]),
     "C14": dict(families=plan("xjoin_s", "xsum_s", "p_xsum", "p_xjoin", "p_xcell", sim="sim_expert")),
